@@ -170,6 +170,80 @@ def normalizer_checks(ck, rng):
                         ck.violation("normalizer-list:%s:forward-reverse-not-transposes" % mode, {"lhs": lhs, "rhs": rhs})
 
 
+def two_phase(ck, rng):
+    """spec/TwoPhase.tla: value / derivative routines called in every order over two inputs; every derivative call must equal
+    the same call on a fresh object that never saw a value call (maps: every registered class alone and in a list;
+    normaliser lists: every semilocal mode)."""
+    import copy
+    import maps
+    r = run_tlc("TwoPhase", "MC_TwoPhase.cfg", workers=2, timeout=300)
+    if r.error:
+        raise MachineryError("TLC TwoPhase: " + r.error)
+    ck.add_tlc("TwoPhase", r)
+    for v in r.violated:
+        ck.violation("model:TwoPhase:" + v, {})
+    rb = run_tlc("TwoPhase", "MC_TwoPhase_bug.cfg", workers=2, timeout=300)
+    if "DerivFromOwnArgument" not in rb.violated:
+        raise MachineryError("negative control TwoPhase/StashBug: DerivFromOwnArgument not violated")
+    hists = tlc_printed_values(r.out, "TP_HIST")
+    if len(hists) < 100:
+        raise MachineryError("TwoPhase printed %d histories" % len(hists))
+    ck.extra["two_phase_histories"] = len(hists)
+    nraw, npts = 5, 6
+    objs = []
+    for cls in maps.all_map_classes():
+        m = maps.make(cls, rng, nraw=nraw)
+        objs.append(("map:" + cls.__name__, td.FeatureList([m])))
+    objs.append(("list:mixed", td.FeatureList([maps.make(c, rng, nraw=nraw) for c in maps.all_map_classes()[:8]])))
+    for name, fl in objs:
+        X = {k: rng.uniform(0.15, 1.6, size=(nraw, npts)) for k in ("A", "B")}
+        dfdy = rng.normal(size=(fl.nfeat, npts))
+        pristine = copy.deepcopy(fl)
+
+        def deriv(obj, x):
+            d = np.zeros((nraw, npts))
+            obj.fill_derivs_(d, dfdy.copy(), x.copy())
+            return d
+        ref = {k: deriv(copy.deepcopy(pristine), X[k]) for k in X}
+        bad = None
+        for h in hists:
+            ck.count()
+            obj = copy.deepcopy(pristine)
+            for step, (kind, x) in enumerate(h):
+                if kind == "value":
+                    obj(X[x].T.copy())
+                else:
+                    d = deriv(obj, X[x])
+                    if not np.allclose(d, ref[x], rtol=1e-12, atol=1e-13 * (1 + np.abs(ref[x]).max()), equal_nan=True):
+                        bad = (h, step)
+                        break
+            if bad:
+                ck.violation("two-phase:%s:derivative-depends-on-earlier-value-calls" % name, {"history": bad[0], "step": bad[1]})
+                break
+    for mode in ("npa", "nst", "np", "ns"):
+        nsl = 3 if mode in ("npa", "nst") else 2
+        nl0 = FeatNormalizerList([None] * nsl + [ConstantNormalizer(1.7), DensityNormalizer(0.8, -4.0 / 3), InhomogeneityNormalizer(0.9, 0.3, -1.5),
+                                                 GeneralNormalizer(1.1, 0.4, 2.0 / 3, 1.0)], slmode=mode)
+        X = {k: rng.uniform(0.2, 2.0, size=(2, nl0.nfeat, npts)) for k in ("A", "B")}
+        V = rng.normal(size=X["A"].shape)
+        ref = {k: copy.deepcopy(nl0).get_derivative_wrt_unnormed_features(X[k].copy(), V.copy()) for k in X}
+        bad = None
+        for h in hists:
+            ck.count()
+            obj = copy.deepcopy(nl0)
+            for step, (kind, x) in enumerate(h):
+                if kind == "value":
+                    obj.get_normalized_feature_vector(X[x].copy())
+                else:
+                    d = obj.get_derivative_wrt_unnormed_features(X[x].copy(), V.copy())
+                    if not np.allclose(d, ref[x], rtol=1e-12, atol=1e-13 * (1 + np.abs(ref[x]).max()), equal_nan=True):
+                        bad = (h, step)
+                        break
+            if bad:
+                ck.violation("two-phase:normalizer-list:%s:derivative-depends-on-earlier-value-calls" % mode, {"history": bad[0], "step": bad[1]})
+                break
+
+
 def main():
     ck = Check("C12", "exploration")
     rng = np.random.default_rng(ck.seed)
@@ -214,6 +288,7 @@ def main():
     ck.extra["pair_states_replayed"] = len(pairs)
     ck.sample({"lst": singles[len(singles) // 2][0], "rows": singles[len(singles) // 2][1]})
     normalizer_checks(ck, rng)
+    two_phase(ck, rng)
     ck.assumptions = ["admissible domain: raw features in [0.15, 1.6] (positive densities, bounded reduced variables)",
                       "finite differences with Richardson extrapolation; a discrepancy counts only beyond 20x the FD error estimate + 1e-7"]
     return ck.finish()
